@@ -911,3 +911,80 @@ def time_fn_model(ctx, rule):
         ctx.fail(rule, f, f.node, "time-fn model: %s (%d disagreeing case(s))" % (problems[0], len(problems)), key=f.qualname + "::time-fn-model")
     else:
         ctx.ok(rule, f, f.node, "time-fn model: the object and every generator currently producing its values receive the clock (instance and class route)")
+
+
+def dynamic_set_model(ctx, rule):
+    """Dynamic.__set__ interpreted abstractly, with the superclass setter's effect on the instance given: what is assigned is
+    a number / a generator (a callable that is not a reference) / a callable REFERENCE (a depends-decorated bound method on a
+    parameter with allow_refs) that resolves to a number / one that resolves to a fresh generator; instance and class route.
+
+    Specification: generator state is attached (`_initialize_generator`) exactly to the value that was STORED when that
+    value is a callable, once; never to the reference itself -- a bound method cannot carry the cache attributes, so the
+    assignment would raise AttributeError after the value was stored and the link installed; on the class route
+    instantiate follows whether the default is dynamic."""
+    from engine.absint import Interp, Obj, Unsupported
+    from engine.loader import AnalysisError
+    f = ctx.repo.func("param.parameters.Dynamic.__set__")
+    problems, n = [], 0
+    for route, kind in [(r, k) for r in ("instance", "class") for k in ("number", "generator", "ref-to-number", "ref-to-generator")]:
+        if route == "class" and kind.startswith("ref"):
+            continue
+        number = Obj("a_number")
+        gen = Obj("a_generator", __callable__=True)
+        resolved_gen = Obj("generator_the_reference_resolves_to", __callable__=True)
+        ref = Obj("bound_method_reference", __callable__=True)
+        given = {"number": number, "generator": gen, "ref-to-number": ref, "ref-to-generator": ref}[kind]
+        stored = {"number": number, "generator": gen, "ref-to-number": Obj("resolved_number"), "ref-to-generator": resolved_gen}[kind]
+        priv = Obj("private", refs={}, values={}, initialized=True)
+        inst = Obj("instance", _param__private=priv) if route == "instance" else None
+        me = Obj("dynamic_param", name="n", default=Obj("old_default"), allow_refs=True)
+        inits, insts = [], []
+
+        def hook(fn, args, kwargs):
+            if fn == "super().__set__":
+                if inst is None:
+                    me.attrs["default"] = stored
+                else:
+                    priv.attrs["values"]["n"] = stored
+                    if kind.startswith("ref"):
+                        priv.attrs["refs"]["n"] = ref
+                return None
+            if fn == "super().__get__":
+                return me.attrs["default"] if inst is None else priv.attrs["values"].get("n", me.attrs["default"])
+            if fn == "self._initialize_generator":
+                inits.append(tuple(args))
+                return None
+            if fn == "self._set_instantiate":
+                insts.append(tuple(args))
+                return None
+            if fn == "hasattr" and len(args) == 2:
+                return isinstance(args[0], Obj) and args[1] in args[0].attrs
+            if fn == "type" and len(args) == 1:
+                return Obj("type_of_instance")
+            return NotImplemented
+        it = Interp(ctx.hier, dyn="param.parameters.Dynamic", inline=lambda m: False, call_hook=hook, strict_self_calls=True)
+        try:
+            outs = it.run_all(f, {f.params[0]: me, f.params[1]: inst, f.params[2]: given})
+        except Unsupported as e:
+            raise AnalysisError("Dynamic set model: absint cannot interpret Dynamic.__set__: %s" % e)
+        if len(outs) != 1 or outs[0].imprecise or outs[0].kind != "return":
+            raise AnalysisError("Dynamic set model: Dynamic.__set__ is not interpretable precisely (%s)" % (outs[0].notes[:2] if outs else "no outcome"))
+        n += 1
+        desc = "%s route, assigning %s" % (route, {"number": "a number", "generator": "a generator", "ref-to-number": "a callable reference (a depends method) that resolves to a number",
+                                                    "ref-to-generator": "a callable reference that resolves to a generator"}[kind])
+        targets = [a[0] for a in inits if a]
+        if any(t is ref for t in targets):
+            problems.append("%s: generator state is attached to the REFERENCE: a bound method cannot carry it, so the assignment raises AttributeError after the resolved value "
+                            "was stored and the link installed (and a function that can carry it is mistaken for a generator)" % desc)
+            continue
+        want = [stored] if getattr(stored, "attrs", {}).get("__callable__") else []
+        if len(targets) != len(want) or any(a is not b for a, b in zip(targets, want)):
+            problems.append("%s: generator state is attached to %s, specification %s" % (desc, [getattr(t, "name", t) for t in targets], [w.name for w in want]))
+        if route == "class" and (len(insts) != 1 or insts[0] != (bool(want),)):
+            problems.append("%s: instantiate is set to %r, specification %r" % (desc, insts, bool(want)))
+    ctx.abstract_cases += n
+    if problems:
+        ctx.fail(rule, f, f.node, "Dynamic set model: %s (%d disagreeing case(s))" % (problems[0], len(problems)), key=f.qualname + "::dynamic-set-model",
+                 input="class T(Parameterized): n = Number(0, allow_refs=True); t = T(); t.n = s.twice  (a @depends method of s) -> AttributeError, yet t.n follows s")
+    else:
+        ctx.ok(rule, f, f.node, "Dynamic set model, %d cases: generator state goes to the stored value when it is a callable, never to a reference" % n)
